@@ -37,7 +37,6 @@ fn main() {
         "c02" => wire::run("C02", &cfg),
         "c03" => wire::run("C03", &cfg),
         "c06" => cli::run("C06", &cfg),
-        "c11" => cli::run("C11", &cfg),
         "c07" => c19::run_c07(&cfg),
         "c08" => rsrv::run_c08(&cfg),
         "c09" => rsrv::run_c09(&cfg),
